@@ -604,3 +604,108 @@ def parse_formula(e: ast.AST, job: str, deps_attr: str, always_attr: str, extra:
         return Formula('unk', key=pf.nsrc(x), expr=x)
 
     return rec(e)
+
+
+# ------------------------------------------------------------------------------------------------
+# 4. seeing through extracted helpers: a (possibly nested) function with its statement-level helper calls inlined
+# ------------------------------------------------------------------------------------------------
+
+def _class_chain(m: pf.Module, cls: ast.ClassDef) -> List[ast.ClassDef]:
+    """cls followed by its base classes defined in the same module (breadth first; a later class never overrides an earlier one)."""
+    by_name = {c.name: c for c in m.tree.body if isinstance(c, ast.ClassDef)}
+    out, queue = [], [cls]
+    while queue:
+        c = queue.pop(0)
+        if any(c is x for x in out):
+            continue
+        out.append(c)
+        for b in c.bases:
+            n = (pf.dotted(b) or '').split('.')[-1]
+            if n in by_name:
+                queue.append(by_name[n])
+    return out
+
+
+def inline_site(m: pf.Module, qual: str, exclude: Sequence[str] = (), max_depth: int = 3) -> Tuple[pf.Module, pf.FuncDef, List[Tuple[str, int]]]:
+    """A copy of module m in which the function `qual` (`f`, `Class.method` or a def nested in a method / function) has its statement-level
+    calls of helpers inlined (engines/inline.Inliner: nothing is executed, helper locals are renamed apart, parameters substituted):
+      * `h(..)` for a module-level function h, a sibling nested def of the enclosing function, or a `@staticmethod` reached as `Class.h(..)`;
+      * `self.h(..)` / `Class.h(..)` for a plain or static method of the class the function lives in or of a base class defined in the same module.
+    Names in `exclude` are never inlined (calls that a rule recognises by name).  Returns (module copy, the function in it, [(helper, line)])."""
+    from . import inline as il
+    tree = copy.deepcopy(m.tree)
+    m2 = pf.Module(m.rel, m.path, m.src, tree)
+    parts = qual.split('.')
+    node: ast.AST = tree
+    cls: Optional[ast.ClassDef] = None
+    encl: Optional[pf.FuncDef] = None      # innermost function around the target
+    method: Optional[pf.FuncDef] = None    # the method of `cls` the target is (or lives in)
+    for i, part in enumerate(parts):
+        found = None
+        for child in pf._body_defs(node):
+            if isinstance(child, (ast.FunctionDef, ast.AsyncFunctionDef, ast.ClassDef)) and child.name == part:
+                found = child
+        if found is None:
+            raise AnalysisError(f'anchor vanished: {m.rel}::{qual} (no definition named {part!r})')
+        if isinstance(found, ast.ClassDef):
+            cls, method = found, None
+        else:
+            if method is None and cls is not None and isinstance(node, ast.ClassDef):
+                method = found
+            if i < len(parts) - 1:
+                encl = found
+        node = found
+    if not isinstance(node, (ast.FunctionDef, ast.AsyncFunctionDef)):
+        raise AnalysisError(f'anchor {m.rel}::{qual} is not a function')
+    fn = node
+    inlined: List[Tuple[str, int]] = []
+    plain: Dict[str, pf.FuncDef] = {f.name: copy.deepcopy(f) for f in tree.body if isinstance(f, (ast.FunctionDef, ast.AsyncFunctionDef)) and f.name not in exclude}
+    if encl is not None:
+        caller_locals = il._locals_of(fn)
+        for f in pf._body_defs(encl):
+            if isinstance(f, (ast.FunctionDef, ast.AsyncFunctionDef)) and f is not fn and f.name not in exclude:
+                free = {x.id for x in ast.walk(f) if isinstance(x, ast.Name)} - il._locals_of(f)
+                if not (free & caller_locals):      # its free variables mean the same in the caller (the shared enclosing scope)
+                    plain[f.name] = copy.deepcopy(f)
+    plain.pop(fn.name, None)
+    methods: Dict[str, pf.FuncDef] = {}
+    statics: Dict[str, pf.FuncDef] = {}
+    recv = None
+    if cls is not None and method is not None:
+        is_static = 'staticmethod' in pf.decorator_names(method)
+        if not is_static and method.args.args:
+            recv = method.args.args[0].arg
+        for c in reversed(_class_chain(m2, cls)):
+            for f in c.body:
+                if isinstance(f, (ast.FunctionDef, ast.AsyncFunctionDef)) and f.name not in exclude and f is not method:
+                    decs = pf.decorator_names(f)
+                    if not decs:
+                        methods[f.name] = copy.deepcopy(f)
+                        statics.pop(f.name, None)
+                    elif decs == ['staticmethod']:
+                        g = copy.deepcopy(f)
+                        g.decorator_list = []
+                        statics[f.name] = g
+                        methods.pop(f.name, None)
+        # `Class.h(..)` / `self.h(..)` of a static method: rewrite to a plain call `__static_h(..)`
+        cnames = {c.name for c in _class_chain(m2, cls)}
+        for x in ast.walk(fn):
+            if isinstance(x, ast.Call) and isinstance(x.func, ast.Attribute) and isinstance(x.func.value, ast.Name) and x.func.attr in statics \
+                    and (x.func.value.id in cnames or (recv is not None and x.func.value.id == recv)):
+                x.func = ast.copy_location(ast.Name(id=f'__static_{x.func.attr}', ctx=ast.Load()), x.func)
+        for k, f in statics.items():
+            plain[f'__static_{k}'] = f
+    for _ in range(max_depth):
+        n0 = len(inlined)
+        if plain:
+            a = il.Inliner(plain, None, max_depth)
+            a.run(fn)
+            inlined += a.inlined
+        if recv is not None and methods:
+            b = il.Inliner(methods, recv, max_depth)
+            b.run(fn)
+            inlined += b.inlined
+        if len(inlined) == n0:
+            break
+    ast.fix_missing_locations(tree)
+    return m2, fn, inlined
